@@ -110,6 +110,7 @@ func c09Hostile(t *rapid.T, in *Intent) {
 type c09TmplOpt struct {
 	MixinParam                             bool // endpoint parameters typed by mixed-in types
 	Mixin, Collector, Views, Nested, Names bool
+	Deep                                   bool // deeply nested statements, expressions and inline types
 	MinChain                               int // minimal mixin chain depth (0 = 1)
 	// avoid the shapes of known findings (decided by the caller through knownActive)
 	NoCollectorArr, NoMixinDisorder, NoQuoteColonName bool
@@ -370,6 +371,83 @@ func c09GenTmpl(t *rapid.T, o c09TmplOpt) c09Tmpl {
 		w.l(1, "Ep "+c09q(pick(t, c09ValPool, "eplong"))+":")
 		w.l(2, c09q(pick(t, c09ValPool, "action")))
 		w.l(2, "return ok <: T"+tn)
+		w.l(0, "")
+	}
+	if o.Deep {
+		// Nothing in the language bounds how deeply blocks, operators or inline types nest; each level
+		// costs two message levels in the model, so a decoder with a smaller limit than the encoder's
+		// writes files it cannot read.
+		depth := func(label string) int {
+			switch rapid.IntRange(0, 2).Draw(t, label+"band") {
+			case 0:
+				return rapid.IntRange(2, 12).Draw(t, label)
+			case 1:
+				return rapid.IntRange(13, 45).Draw(t, label)
+			}
+			return rapid.IntRange(46, 130).Draw(t, label)
+		}
+		ns, ne, nt := depth("deepstmt"), depth("deepexpr"), depth("deeptype")
+		cl("tmpl_deep")
+		band := func(kind string, n int) {
+			switch {
+			case n > 45:
+				cl("tmpl_deep_" + kind + ">45")
+			case n > 12:
+				cl("tmpl_deep_" + kind + "_13..45")
+			}
+		}
+		band("stmt", ns)
+		band("expr", ne)
+		band("type", nt)
+		w.l(0, "DeepApp:")
+		w.l(1, "Ep:")
+		for i := 0; i < ns; i++ {
+			switch rapid.IntRange(0, 3).Draw(t, "deepkind") {
+			case 0:
+				w.l(2+i, fmt.Sprintf("if c%d:", i))
+			case 1:
+				w.l(2+i, fmt.Sprintf("for each x%d:", i))
+			case 2:
+				w.l(2+i, fmt.Sprintf("while c%d:", i))
+			default:
+				w.l(2+i, "one of:")
+				ns2 := i + 1
+				w.l(2+ns2, fmt.Sprintf("case%d:", i))
+				// the choice label takes one more indentation level: shift the remaining blocks
+				for j := i + 1; j < ns; j++ {
+					w.l(3+j, fmt.Sprintf("if d%d:", j))
+				}
+				w.l(3+ns, "leaf")
+				goto stmtsDone
+			}
+		}
+		w.l(2+ns, "leaf")
+	stmtsDone:
+		ops := []string{" + ", " - ", " * ", " && ", " || "}
+		var e strings.Builder
+		op := pick(t, ops, "deepop")
+		right := rapid.Bool().Draw(t, "deepright")
+		for i := 0; i < ne; i++ {
+			if i > 0 {
+				e.WriteString(op)
+			}
+			if right && i < ne-1 {
+				e.WriteString("(")
+			}
+			fmt.Fprintf(&e, "n%d", i%3)
+		}
+		if right {
+			e.WriteString(strings.Repeat(")", ne-1))
+		}
+		w.l(1, "!view Deep(n0 <: int, n1 <: int, n2 <: int) -> int:")
+		w.l(2, "n0 -> (:")
+		w.l(3, "out = "+e.String())
+		w.l(2, ")")
+		w.l(1, "!type Deep:")
+		for i := 0; i < nt; i++ {
+			w.l(2+i, fmt.Sprintf("L%d <:", i))
+		}
+		w.l(2+nt, "leaf <: int")
 		w.l(0, "")
 	}
 	out.Text = w.sb.String()
